@@ -118,7 +118,7 @@ func editSpace(thorough bool) space {
 	progen.F3(add)
 	progen.F5(add)
 	progen.F6(add)
-	progen.C02(false, add)
+	progen.C02Corpus(false, add)
 	return space{"edits", len(srcs), func(i int) string { return srcs[i] }}
 }
 
